@@ -5,7 +5,9 @@ import json, subprocess, importlib.machinery, importlib.util, os
 ROOT = os.path.dirname(os.path.dirname(os.path.abspath(__file__)))
 loader = importlib.machinery.SourceFileLoader("check", os.path.join(ROOT, "check"))
 spec = importlib.util.spec_from_loader("check", loader); chk = importlib.util.module_from_spec(spec); loader.exec_module(chk)
-st = subprocess.run(["git", "-C", "/repo", "status", "--porcelain"], stdout=subprocess.PIPE, text=True).stdout.strip()
+st = subprocess.run(["git", "-C", "/repo", "status", "--porcelain"], stdout=subprocess.PIPE, text=True).stdout
+# untracked hook files of an engineer at work are not part of the digest (verif_hooks* are excluded from it)
+st = "\n".join(l for l in st.split("\n") if l.strip() and not (l.startswith("??") and "verif_hooks" in l))
 if st:
     raise SystemExit("refusing: /repo has uncommitted changes:\n" + st)
 d, n = chk.source_digest("/repo")
